@@ -85,11 +85,12 @@ def append_step_reach(prev_raw: str, n_prev_lines: int, new: str) -> bool:
 
 # ---------------------------------------------------------------------------------------------
 # histories through the real entry points, exec stubbed
-_state = {"text": "", "reads": 0, "got": []}
+_state = {"text": "", "reads": 0, "got": [], "calls": 0}
 
 
 def _fake_exec(code, data):
     """Stands for an arbitrary student program: reads input() `reads` times, then writes `text`."""
+    _state["calls"] += 1
     for _ in range(_state["reads"]):
         _state["got"].append(data["input"]("p"))
     sys.stdout.write(_state["text"])
@@ -136,7 +137,11 @@ def _history(ops, texts):
     raw, lines, ok = "", [], True
     for op, text in zip(ops, texts):
         before = len(sb._context)
+        calls_before = _state["calls"]
         _do(sb, op, text)
+        if op != 3 and _state["calls"] == calls_before:
+            flag("stub_dead")          # pedal no longer reaches the stubbed exec: nothing can be judged
+            return True
         if op == 3:
             raw, lines = "", []
             continue
@@ -296,3 +301,11 @@ def input_entry(queue: List[str], arg: List[str], reads: int) -> bool:
     want = [(expect[i] if i < len(expect) else "0") for i in range(reads)]
     return (sb.exception is None and _state["got"] == want and sb.inputs == expect[reads:]
             and sb._context[-1].inputs == want and sb.raw_output == "p\n" * reads)
+
+
+def stub_canary():
+    """True iff pedal still routes student code through the stubbed `exec` name."""
+    sb = _fresh()
+    before = _state["calls"]
+    _do(sb, 0, "x")
+    return _state["calls"] == before + 1 and sb.raw_output == "x"
